@@ -1813,4 +1813,28 @@ theorem v_in_return_range_counterexample :
   rw [hr]
   norm_num [hiR, exM]
 
+
+/-- POMCP as in the source: the rollout at a new leaf is not guarded -/
+def exP : Mdl := { pomcp := true, gamma := 1/2, rollOff := 1, rollGuard := false, explPos := true, numA := fun _ => 2,
+                   valid := fun _ => true }
+def exT1 : Step := { s := 0, a := 0, s1 := 1, o := 0, r := 1, term := true }
+def exT2 : Step := { s := 1, a := 1, s1 := 1, o := 0, r := 1, term := true }
+
+/-- **no_simulation_past_terminal_counterexample** (POMCP, unguarded rollout): the first call reports the terminal
+    state 1, a new leaf is created and the rollout samples the model again from that terminal state. -/
+theorem no_simulation_past_terminal_counterexample :
+    ∃ (t' : Tree) (r : Rat) (used : List Step), Sim exP 2 (Tree.fresh [0] 2 4) [] 0 0 used t' r ∧ ¬ NoCont used := by
+  have h : (simulate exP 2 3 (Tree.fresh [0] 2 4) [] 0 0 [exT1, exT2]).any (fun x => x.2.2.isEmpty) = true := by decide
+  rw [Option.any_eq_true] at h
+  obtain ⟨⟨t', r, rest⟩, hx, hp⟩ := h
+  obtain ⟨used, hu, hS⟩ := simulate_sound exP 2 _ _ _ _ _ _ _ _ _ hx
+  have hr : rest = [] := by simpa using hp
+  subst hr
+  have hused : used = [exT1, exT2] := by simpa using hu.symm
+  refine ⟨t', r, used, hS, ?_⟩
+  rw [hused]
+  intro hn
+  have : exT1.term = false := hn.1
+  simp [exT1] at this
+
 end AITB.Tree
